@@ -50,6 +50,8 @@ def run(ctx):
     ctx.rule("E1", "who-may-construct TextEncoding from a literal variant")
     ctx.rule("E2", "provenance of TextEncoding operands: field or parameter, never a literal")
     ctx.rule("E3", "who-may-count string units; TextEncoding::width has one arm per variant using the matching primitive")
+    ctx.rule("E4", "unit consistency in the text-diff hooks: an accumulator (field of the hook or local) that receives a TextEncoding::width-derived addend anywhere receives only width-derived addends (no grapheme counts, no literal 1 for a block)")
+    ctx.rule("E5", "the text-diff hooks never delete a single element (TransactionInner::delete); every delete count handed to splice_text is the constant 0 or width-derived")
     f = ctx.facts()
     a = f.adts.get(TE)
     if a is None:
@@ -130,3 +132,120 @@ def run(ctx):
                     continue
         want = PRIMITIVE.get(v)
         ctx.ob("E3", "TextEncoding::width|%s uses %s" % (v, want), want in arm_calls and len(arm_calls) == 1, wb.rec["sp"], "arm calls %s" % sorted(arm_calls))
+    check_units(ctx, f)
+
+
+def width_fns(f):
+    """TextEncoding::width and the usize-returning functions that call it (two levels)"""
+    from .. import callgraph
+    cg = callgraph.get(f)
+    W = {WIDTH}
+    for _ in range(2):
+        for p, r in f.fns.items():
+            if r["ckey"] == ("automerge", "lib") and norm_fn(p) not in W and cfg.body(r).local_ty(0) in ("usize", "u64") and any(norm_fn(c) in W for c in cg.out.get(p, ())):
+                W.add(norm_fn(p))
+    return W
+
+
+def width_derived(f, b, op, W):
+    pv = b.provenance(op, through_calls=True)
+    if any(norm_fn(c) in W for c in pv.callees()):
+        return True
+    for cl in pv.closures:
+        r = f.fns.get(cl)
+        if r is not None and any(norm_fn(t.get("res") or t.get("fn")) in W for _, t in f.calls(r)):
+            return True
+    return False
+
+
+def accumulations(b):
+    """`P += X` in MIR: yields (key of P, operand X, span). P is a field of self or a local."""
+    def key(pl):
+        if pl is None:
+            return None
+        o = b.origin(pl["l"], tuple(pl["p"]))
+        if o[0] == 1 and b.argc >= 1:
+            flds = tuple(e for e in o[1] if e.startswith("."))
+            return ("self",) + flds if flds else None
+        if o[0] > b.argc and not [e for e in o[1] if e not in ("&", "*")]:
+            return ("local", o[0])
+        return None
+    for bi, blk in enumerate(b.blocks):
+        if blk.get("cleanup"):
+            continue
+        for st in blk["st"]:
+            rv = st["rv"]
+            if rv["k"] != "Bin" or rv["op"] not in ("Add", "AddWithOverflow", "AddUnchecked"):
+                continue
+            x, y = rv["o"]
+            kx, ky = key(x.get("c") or x.get("m")), key(y.get("c") or y.get("m"))
+            # where does the sum go?
+            dests = []
+            if rv["op"] == "Add":
+                dests.append(key(st["d"]))
+            else:
+                for blk2 in b.blocks:
+                    for st2 in blk2["st"]:
+                        r2 = st2["rv"]
+                        if r2["k"] == "Use":
+                            src = r2["o"][0].get("m") or r2["o"][0].get("c")
+                            if src and src["l"] == st["d"]["l"] and src["p"] == [".0"]:
+                                dests.append(key(st2["d"]))
+            for dk in dests:
+                if dk is None:
+                    continue
+                if kx == dk:
+                    yield dk, y, st["sp"]
+                elif ky == dk:
+                    yield dk, x, st["sp"]
+
+
+def check_units(ctx, f):
+    W = width_fns(f)
+    ctx.floor("width functions (TextEncoding::width and its usize wrappers)", len(W), 2)
+    scope = []
+    for p, r in sorted(f.fns.items()):
+        np_ = norm_fn(p)
+        if r["ckey"] != ("automerge", "lib") or "automerge::text_diff::" not in np_ or "{closure" in p:
+            continue
+        head = np_.split(" as ")[0].lstrip("<")
+        if any(head.startswith("automerge::text_diff::%s::" % m) for m in ("myers", "replace", "utils")):
+            continue            # generic diff machinery: indexes into the grapheme vectors, not into the text
+        scope.append((p, r))
+    ctx.floor("text-diff functions checked for unit consistency", len(scope), 15)
+    groups = {}
+    for p, r in scope:
+        b = cfg.body(r)
+        owner = r.get("container") or norm_fn(p)
+        for k, x, sp in accumulations(b):
+            gk = (owner.split(" as ")[0].lstrip("<") if k[0] == "self" else norm_fn(p),) + k
+            groups.setdefault(gk, []).append((norm_fn(p), width_derived(f, b, x, W), sp))
+        ctx.analysed_fns.add(p)
+    n_unit = 0
+    for gk, adds in sorted(groups.items(), key=str):
+        if not any(w for _, w, _ in adds):
+            continue            # never receives a width: a plain counter (loop index, item count)
+        n_unit += 1
+        name = "%s %s" % (gk[0].split("::")[-1].split("<")[0], "".join(str(x) for x in gk[2:]) if gk[1] == "self" else "local accumulator")
+        for k, (fn, w, sp) in util.ordinal_keys(adds, lambda a: "%s|addend in %s" % (name, a[0].split("::")[-1])):
+            ctx.ob("E4", k, w, sp, "addend is a width in the document's encoding" if w else
+                   "this index is advanced by widths elsewhere but here by a value that is not a TextEncoding::width (a grapheme / item count or a literal): positions after a character or block wider than one unit are wrong")
+    ctx.floor("text-index accumulators in the text-diff hooks", n_unit, 3)
+    # E5
+    TI_DELETE = "automerge::transaction::inner::TransactionInner::delete"
+    n_spl = 0
+    for p, r in scope:
+        b = cfg.body(r)
+        for bi, t in b.calls():
+            c = callee(t)
+            if c == TI_DELETE:
+                ctx.ob("E5", "%s|single-element delete" % norm_fn(p).split("::")[-1], False, t["sp"],
+                       "a grapheme is removed with TransactionInner::delete, which deletes one element: a grapheme several units wide in the document's encoding keeps its tail")
+            if c == "automerge::transaction::inner::TransactionInner::splice_text":
+                n_spl += 1
+                d = t["args"][5]
+                k0 = util.op_const(d)
+                ok = (k0 is not None and k0.get("v") == "0") or width_derived(f, b, d, W)
+                ctx.ob("E5", "%s|splice_text delete count|%d" % (norm_fn(p).split("::")[-1], n_spl), ok, t["sp"], "0 or a width" if ok else
+                       "the number of units deleted is not a width in the document's encoding")
+    ctx.floor("splice_text calls in the text-diff hooks", n_spl, 8)
